@@ -577,4 +577,141 @@ theorem disp_sim (P : Prims) (hP : Frame P) : ∀ (d : Desc), DispSim P 1 d
   | .seq id ms => disp_seq P 1 id ms (list_sim P hP ms)
 end
 
+theorem cPre_mono (d : Desc) (k1 k0 : CRegs → CM COut) (hk : ∀ c x, k1 c = .ok x → k0 c = .ok x)
+    (c0 : CRegs) (x : COut) (h : cPre d k1 c0 = .ok x) : cPre d k0 c0 = .ok x := by
+  unfold cPre at h ⊢
+  simp only [] at h ⊢
+  generalize (if c0.dnpCount ≠ 0 then { c0 with dnpCount := c0.dnpCount - 1 } else c0) = c at h ⊢
+  split
+  · next hs => rw [if_pos hs] at h; exact h
+  · next hs =>
+    rw [if_neg hs] at h
+    split
+    · next e he => rw [he] at h; exact h
+    · next he =>
+      rw [he] at h
+      simp only at h ⊢
+      split
+      · next hsk => rw [if_pos hsk] at h; exact h
+      · next hsk =>
+        rw [if_neg hsk] at h
+        cases h1 : k1 (cBitmapDefinition d.id c).2 with
+        | error e => rw [h1] at h; cases h
+        | ok y => rw [h1] at h; rw [hk _ _ h1]; exact h
+
+def Mono (d : Desc) : Prop := ∀ c x, cDispatch 1 d c = .ok x → cDispatch 0 d c = .ok x
+def MonoL (t : List Desc) : Prop := ∀ c x, compileList 1 t c = .ok x → compileList 0 t c = .ok x
+
+theorem mono_cons (d : Desc) (ds : List Desc) (hd : Mono d) (hds : MonoL ds) : MonoL (d :: ds) := by
+  intro c x h
+  simp only [compileList] at h ⊢
+  cases h1 : compile1 1 d c with
+  | error e => rw [h1] at h; cases h
+  | ok y =>
+    rw [compile1_eq] at h1
+    have h0 := cPre_mono d _ _ hd c y h1
+    rw [← compile1_eq] at h0
+    rw [compile1_eq, h1] at h
+    rw [h0]
+    obtain ⟨p1, c2⟩ := y
+    simp only at h ⊢
+    cases h2 : compileList 1 ds c2 with
+    | error e => rw [h2] at h; cases h
+    | ok z => rw [h2] at h; rw [hds _ _ h2]; exact h
+
+theorem mono_fixed (id : Nat) (ms : List Desc) (hms : MonoL ms) : Mono (.fixedRep id ms) := by
+  intro c x h
+  simp only [cDispatch] at h ⊢
+  cases h1 : compileList 1 ms c with
+  | error e => rw [h1] at h; cases h
+  | ok y =>
+    obtain ⟨body, c2⟩ := y
+    rw [h1] at h; rw [hms _ _ h1]
+    simp only at h ⊢
+    generalize scopeOk (decide (yOf id ≠ 0)) c body c2 (compileList 1 ms c2) = b at h
+    cases b with
+    | false => simp at h
+    | true => simpa using h
+
+theorem mono_delayed (id : Nat) (f : Desc) (ms : List Desc) (hms : MonoL ms) : Mono (.delayedRep id f ms) := by
+  intro c x h
+  cases f with
+  | elem fe =>
+    simp only [cDispatch] at h ⊢
+    cases h1 : compileList 1 ms (cElement fe c).2 with
+    | error e => rw [h1] at h; cases h
+    | ok y =>
+      obtain ⟨body, c2⟩ := y
+      rw [h1] at h; rw [hms _ _ h1]
+      simp only at h ⊢
+      generalize scopeOk (decide (1 = 2)) (cElement fe c).2 body c2 (compileList 1 ms c2) = b at h
+      cases b with
+      | false => simp at h
+      | true => simpa using h
+  | _ => simp only [cDispatch] at h; cases h
+
+theorem mono_op (id : Nat) : Mono (.op id) := by
+  intro c x h
+  simp only [cDispatch] at h ⊢
+  simp only [ne_eq, not_true_eq_false, decide_false, Bool.false_and, Bool.false_eq_true, if_false]
+  simp only [ne_eq, Nat.succ_ne_self, not_false_eq_true, decide_true, Bool.true_and, Bool.and_eq_true, decide_eq_true_eq] at h
+  split at h
+  · cases h
+  · exact h
+
+mutual
+theorem monoL : ∀ (t : List Desc), MonoL t
+  | [] => fun _ _ h => by simpa only [compileList] using h
+  | d :: ds => mono_cons d ds (mono d) (monoL ds)
+theorem mono : ∀ (d : Desc), Mono d
+  | .elem _ => fun _ _ h => h
+  | .undefElem _ => fun _ _ h => h
+  | .undefSeq _ => fun _ _ h => h
+  | .fixedRep id ms => mono_fixed id ms (monoL ms)
+  | .delayedRep id f ms => mono_delayed id f ms (monoL ms)
+  | .op id => mono_op id
+  | .seq _ ms => fun c x h => monoL ms c x h
+end
+
+/-- inside the class `scopeClosed` the checking compiler and the compiler produce the same program -/
+theorem compile_of_scopeClosed (t : List Desc) (prog : List Stmt) (c1 : CRegs)
+    (h : compileList 1 t {} = .ok (prog, c1)) : compile t = .ok prog := by
+  unfold compile
+  rw [monoL t _ _ h]
+
+
+/-! ### observable equality -/
+
+/-- a state without its registers: bits, labels, values, value index, links -/
+def eraseRegs (s : St) : St := { s with regs := {} }
+
+/-- a result up to the registers of the final state -/
+def obs (x : CM St) : CM St :=
+  match x with
+  | .ok s => .ok (eraseRegs s)
+  | .error e => .error e
+
+theorem sim_obs {c : CRegs} {a b : CM St} (h : Sim c a b) : obs b = obs a := by
+  cases a with
+  | error e =>
+    cases b with
+    | error e' => have : e = e' := h; rw [this]
+    | ok t' => exact h.elim
+  | ok t =>
+    cases b with
+    | error e' => exact h.elim
+    | ok t' =>
+      obtain ⟨h1, _⟩ := h
+      show Except.ok (eraseRegs t') = Except.ok (eraseRegs t)
+      rw [h1]; rfl
+
+theorem relR_init : RelR {} ({} : Regs) ({} : Regs) := by
+  constructor <;> first | rfl | (intro id; simp [lookupRef]) | (intro _; rfl)
+
+theorem scopeClosed_iff (t : List Desc) : scopeClosed t = true ↔ ∃ p c1, compileList 1 t {} = .ok (p, c1) := by
+  unfold scopeClosed
+  cases h : compileList 1 t {} with
+  | error e => simp
+  | ok x => exact ⟨fun _ => ⟨x.1, x.2, rfl⟩, fun _ => rfl⟩
+
 end Bufr.C08W
